@@ -994,3 +994,126 @@ def dead_store_rule(ctx, rid, scope, is_source, minimum):
     if n < minimum:
         from facts import AnalysisBroken
         raise AnalysisBroken('%s: only %d stores of fetched values found' % (rid, n))
+
+
+def size_minus_rule(ctx, rid, scope, minimum):
+    """s.length() - k (k >= 1) used as a position of s (subscript, at, erase, substr, insert, replace) wraps around to a huge
+    value when s is shorter than k: erase/at/substr then throw std::out_of_range, a subscript reads outside.  Every such use
+    is reached only behind a test that s holds at least k characters."""
+    import re
+    import facts
+    fb = ctx.fb
+    seen = set()
+    n = 0
+    for fn in fb.functions:
+        if not scope(fn) or not fn.blocks or (fn.name, fn.sig) in seen:
+            continue
+        seen.add((fn.name, fn.sig))
+        for x, v in sorted(fn.nodes.items()):
+            if v['k'] != 'BinaryOperator' or v.get('op') != '-' or fn.val(v['rhs']) is None or fn.val(v['rhs']) < 1:
+                continue
+            m = re.match(r'^(.*)\.(length|size)\(\)$', fn.key(v['lhs']))
+            if not m:
+                continue
+            S = m.group(1)
+            use = None
+            for a in fn.ancestors(x):
+                av = fn.nodes[a]
+                if av['k'] == 'CXXOperatorCallExpr' and av.get('op') == '[]' and fn.key(av['args'][0]) == S and x in set(fn.walk(av['args'][1])):
+                    use = a
+                    break
+                if av['k'] == 'CXXMemberCallExpr' and (av.get('callee') or '').split('::')[-1] in ('at', 'erase', 'substr', 'insert', 'replace') and \
+                        'obj' in av and fn.key(av['obj']) == S and av.get('args') and x in set(fn.walk(av['args'][0])):
+                    use = a
+                    break
+                if av['k'] not in facts.STRIP_KINDS and av['k'] not in ('ImplicitCastExpr', 'BinaryOperator', 'ParenExpr'):
+                    break
+            if use is None:
+                continue
+            n += 1
+            ctx.touch(fn)
+            k = fn.val(v['rhs'])
+            alts = [('%s.empty()' % S, False)] if k == 1 else []
+            atoms = set()
+            for b in fn.blocks.values():
+                if b.cond is not None and len(b.succs) == 2:
+                    for j in (0, 1):
+                        for conj in facts.implied(fn, fn.effective_cond(b.id), j == 0):
+                            for a in conj:
+                                atoms.add(facts.atom_key(fn, a)[0])
+            for key in atoms:
+                mm = re.match(r'^\(%s\.(?:length|size)\(\) (<=|<|==) #(\d+)\)$' % re.escape(S), key)
+                if not mm:
+                    continue
+                c = int(mm.group(2))
+                if (mm.group(1) == '<=' and c >= k - 1) or (mm.group(1) == '<' and c >= k) or (mm.group(1) == '==' and c == 0 and k == 1):
+                    alts.append((key, False))
+                if mm.group(1) == '==' and c >= k:
+                    alts.append((key, True))
+            ok = bool(alts) and fn.needs_one_of(use, alts)
+            ctx.ob(rid, fn, use, ok, '%s.%s() - %d used as a position' % (S, m.group(2), k),
+                   'reached only with at least %d character(s) in %s: %s' % (k, S, ok))
+    if n < minimum:
+        from facts import AnalysisBroken
+        raise AnalysisBroken('%s: only %d positions computed from a length found' % (rid, n))
+
+
+def find_result_rule(ctx, rid, scope, minimum):
+    """the result of s.find...() is npos when nothing was found; used as it is as the start of s.erase/substr/at/insert/replace
+    it throws std::out_of_range (pos + 1 wraps to 0 and is harmless).  Every such use is reached only behind a test that
+    excludes npos: pos != npos (also in the form (pos = s.find(..)) != npos), or pos < / <= something."""
+    import re
+    import facts
+    fb = ctx.fb
+    seen = set()
+    n = 0
+    for fn in fb.functions:
+        if not scope(fn) or not fn.blocks or (fn.name, fn.sig) in seen:
+            continue
+        seen.add((fn.name, fn.sig))
+        asg = list(fn.assignments())
+        allatoms = None
+        for nid, d, rhs, op, lhs in asg:
+            if rhs is None or not d or ':' not in d:
+                continue
+            r = fn.nodes[fn.strip(rhs, casts=True)]
+            if not (r.get('k') == 'CXXMemberCallExpr' and (r.get('callee') or '').split('::')[-1] in _FIND and
+                    (r.get('cls') or '').startswith('std::basic_string') and 'obj' in r):
+                continue
+            S = fn.key(r['obj'])
+            pn = d.split(':')[-1]
+            others = set(n2 for n2, d2, _, _, _ in asg if d2 == d and n2 != nid)
+            for c in fn.all('CXXMemberCallExpr'):
+                v = fn.nodes[c]
+                if 'obj' not in v or fn.key(v['obj']) != S or not v.get('args') or \
+                        (v.get('callee') or '').split('::')[-1] not in ('erase', 'substr', 'at', 'insert', 'replace'):
+                    continue
+                a0 = fn.nodes[fn.strip(v['args'][0], casts=True)]
+                if a0.get('decl') != d:
+                    continue
+                pf, pc = fn.pos(nid), fn.pos(c)
+                if pf is None or pc is None or not fn.reaches_point(pf[0], pc, others, start_idx=pf[1] + 1):
+                    continue
+                n += 1
+                ctx.touch(fn)
+                if allatoms is None:
+                    allatoms = set()
+                    for b in fn.blocks.values():
+                        if b.cond is not None and len(b.succs) == 2:
+                            for j in (0, 1):
+                                for conj in facts.implied(fn, fn.effective_cond(b.id), j == 0):
+                                    for a in conj:
+                                        allatoms.add(facts.atom_key(fn, a)[0])
+                alts = [('(%s == #18446744073709551615)' % pn, False)]
+                for k in allatoms:
+                    if re.match(r'^\(\(%s = .*\) == #18446744073709551615\)$' % re.escape(pn), k):
+                        alts.append((k, False))
+                    if re.match(r'^\(%s (<|<=) .*\)$' % re.escape(pn), k):
+                        alts.append((k, True))
+                    if re.match(r'^\(%s == #\d+\)$' % re.escape(pn), k) and not k.endswith('#18446744073709551615)'):
+                        alts.append((k, True))
+                ok = fn.needs_one_of(c, alts)
+                ctx.ob(rid, fn, c, ok, 'search result %s used as position of %s' % (pn, S), 'reached only where npos is excluded: %s' % ok)
+    if n < minimum:
+        from facts import AnalysisBroken
+        raise AnalysisBroken('%s: only %d uses of a search result as position found' % (rid, n))
